@@ -416,12 +416,23 @@ def havoc_loop(vn, s, st):
             if k and k not in seen and (k in st.env):
                 seen.add(k)
                 reads.append(vn._as_term(st.env[k]))
-    tag = T.sym("loop@" + _loop_sig(s), real=True)
+    sig, canon = _loop_sig(s)
+    tag = T.sym("loop@" + sig, real=True)
     for k in sorted(written):
-        st.env[k] = T.app("loopval:" + k, tag, *reads)
+        st.env[k] = T.app("loopval:" + canon.get(k, k), tag, *reads)
     return [st]
 
 
 def _loop_sig(s):
+    """alpha-invariant signature of a loop: plain names are numbered by first appearance before hashing, so that renaming a local
+    does not change the opaque value the loop stands for (attribute names, constants and structure still count)"""
+    import copy
     import hashlib
-    return hashlib.sha1(ast.dump(s).encode()).hexdigest()[:10]
+    t = copy.deepcopy(s)
+    canon = {}
+    for n in ast.walk(t):
+        if isinstance(n, ast.Name):
+            if n.id not in canon:
+                canon[n.id] = "n%d" % len(canon)
+            n.id = canon[n.id]
+    return hashlib.sha1(ast.dump(t).encode()).hexdigest()[:10], canon
